@@ -91,3 +91,21 @@ Require Import GM.model.Html GM.model.HtmlSpec GM.model.ParseI GM.model.ParseChe
 Theorem C05_checked_parser_output_wf : forall src t, ParseTreeC src = Ok t -> ParseTree src = Ok t /\ wf_tree src t = true.
 Proof. exact ParseTreeC_ok. Qed.
 Print Assumptions C05_checked_parser_output_wf.
+
+(* the parser model itself, without any run-time check: EVERY tree it yields is well formed (all
+   segments inside the source and in order, heading levels 1..6, counts and links consistent by
+   construction of the tree type), and its inline children are of public inline kinds only - no
+   delimiter, link label state or other bookkeeping node is left behind *)
+Require Import GM.model.BlockParse GM.model.InlineParse GM.proofs.ParseInv GM.proofs.ParseFinal GM.proofs.ParseInlineRange GM.proofs.ParseBlocksRange.
+Theorem C05_parser_output_wf : forall src t, bytes_ok src -> ParseTree src = Ok t -> wf_tree src t = true.
+Proof. exact ParseTree_wf_all. Qed.
+Print Assumptions C05_parser_output_wf.
+Theorem C05_block_phase_wf : forall src t refs, bytes_ok src -> ParseBlocksTree src = Ok (t, refs) ->
+  wf_node src false false t = true /\ tree_lines_ok src t = true /\ refs_ok refs.
+Proof. exact ParseBlocksTree_ok. Qed.
+Print Assumptions C05_block_phase_wf.
+Theorem C05_inline_children_public_kinds : forall refs src lines ts,
+  bytes_ok src -> refs_ok refs -> lines_ok src lines -> InlineChildren refs src lines = Ok ts ->
+  Forall (fun t => all_kinds inline_kind t = true) ts.
+Proof. exact InlineChildren_public_kinds. Qed.
+Print Assumptions C05_inline_children_public_kinds.
